@@ -51,7 +51,7 @@ pub enum Op {
     Wrap(Handle, usize),
     Unwrap(Handle),
     CloneNode(Handle),
-    ClonePrefixes(Handle),
+    ClonePrefixes(Handle, Vec<usize>), // the order in which the inherited prefixes were added (read back after the call)
     SetName(Handle, usize),
     SetAttr(Handle, usize, String),
     RmAttr(Handle, usize),
@@ -101,7 +101,7 @@ pub fn op_str(o: &Op) -> String {
         Wrap(a, n) => format!("wrap {} {}", hs(*a), n),
         Unwrap(a) => format!("unwrap {}", hs(*a)),
         CloneNode(a) => format!("clone {}", hs(*a)),
-        ClonePrefixes(a) => format!("clonep {}", hs(*a)),
+        ClonePrefixes(a, ord) => format!("clonep {} {}", hs(*a), if ord.is_empty() { "-".to_string() } else { ord.iter().map(|x| x.to_string()).collect::<Vec<_>>().join("+") }),
         SetName(a, n) => format!("set_name {} {}", hs(*a), n),
         SetAttr(a, n, v) => format!("set_attr {} {} {}", hs(*a), n, enc(v)),
         RmAttr(a, n) => format!("rm_attr {} {}", hs(*a), n),
@@ -162,7 +162,7 @@ pub fn parse_op(s: &str) -> Op {
         "wrap" => Wrap(ph(f[1]), u(2)),
         "unwrap" => Unwrap(ph(f[1])),
         "clone" => CloneNode(ph(f[1])),
-        "clonep" => ClonePrefixes(ph(f[1])),
+        "clonep" => ClonePrefixes(ph(f[1]), if f.len() < 3 || f[2] == "-" { vec![] } else { f[2].split('+').map(|x| x.parse().unwrap()).collect() }),
         "set_name" => SetName(ph(f[1]), u(2)),
         "set_attr" => SetAttr(ph(f[1]), u(2), dec(f[3])),
         "rm_attr" => RmAttr(ph(f[1]), u(2)),
@@ -197,7 +197,7 @@ pub fn op_nodes(o: &Op) -> Vec<Handle> {
     match o {
         Append(a, b) | Prepend(a, b) | InsertAfter(a, b) | InsertBefore(a, b) | AnyAppend(a, b) | AppendAttrNode(a, b)
         | AppendNsNode(a, b) | Replace(a, b) => vec![*a, *b],
-        Detach(a) | Remove(a) | Wrap(a, _) | Unwrap(a) | CloneNode(a) | ClonePrefixes(a) | SetName(a, _) | SetAttr(a, _, _)
+        Detach(a) | Remove(a) | Wrap(a, _) | Unwrap(a) | CloneNode(a) | ClonePrefixes(a, _) | SetName(a, _) | SetAttr(a, _, _)
         | RmAttr(a, _) | SetNs(a, _, _) | RmNs(a, _) | AttrsClear(a) | NsClear(a) | AttrsGetMutSet(a, _, _)
         | AttrsEntryOrInsert(a, _, _) | AttrsEntryModify(a, _, _) | AttrsEntryRemove(a, _) | NsGetMutSet(a, _, _)
         | NsEntryOrInsert(a, _, _) | SetText(a, _) | SetComment(a, _) | SetPiData(a, _) | SetAttrValue(a, _)
@@ -334,6 +334,15 @@ impl Store {
     }
 }
 
+/// after clone_with_prefixes: the prefixes that were added to the clone, in the order of their namespace nodes
+pub fn added_prefix_order(st: &Store, source: Handle, clone: Handle) -> Vec<usize> {
+    let s = st.known[&source];
+    let c = st.known[&clone];
+    if !st.xot.is_element(c) { return vec![]; }
+    let own: Vec<xot::PrefixId> = st.xot.namespaces(s).keys().collect();
+    st.xot.namespaces(c).keys().filter(|p| !own.contains(p)).map(|p| st.reg.prefix_idx(p)).collect()
+}
+
 // the consolidation flag is not readable through the API: the store tracks what it set
 impl Store {
     pub fn set_cons(&mut self, b: bool) {
@@ -383,7 +392,7 @@ pub fn exec(st: &mut Store, op: &Op) -> Outcome {
             Wrap(_, n) => Some(xot.element_wrap(a.unwrap(), reg_names[n])?),
             Unwrap(_) => { xot.element_unwrap(a.unwrap())?; None }
             CloneNode(_) => Some(xot.clone_node(a.unwrap())),
-            ClonePrefixes(_) => Some(xot.clone_with_prefixes(a.unwrap())),
+            ClonePrefixes(..) => Some(xot.clone_with_prefixes(a.unwrap())),
             SetName(_, n) => { xot.set_element_name(a.unwrap(), reg_names[n]); None }
             SetAttr(_, n, v) => { xot.set_attribute(a.unwrap(), reg_names[n], v); None }
             RmAttr(_, n) => { xot.remove_attribute(a.unwrap(), reg_names[n]); None }
@@ -622,7 +631,7 @@ impl OForest {
         self.nodes.insert(h, ONode { val, kids: vec![], parent: None });
         h
     }
-    fn is_text(&self, h: Handle) -> bool { self.nodes[&h].val.is_text() }
+    pub fn is_text(&self, h: Handle) -> bool { self.nodes[&h].val.is_text() }
     fn normal(&self, h: Handle) -> bool { self.nodes[&h].val.cat() == 2 }
     /// merge kids[i+1] into kids[i] of `p` when both are text and consolidation is on
     fn merge_at(&mut self, p: Handle, i: usize) {
@@ -715,6 +724,15 @@ impl OForest {
 }
 
 impl OForest {
+    pub fn any_adjacent_text_under(&self, root: Handle) -> bool {
+        let mut stack = vec![root];
+        while let Some(h) = stack.pop() {
+            let n = &self.nodes[&h];
+            if n.kids.windows(2).any(|w| self.is_text(w[0]) && self.is_text(w[1])) { return true; }
+            stack.extend(n.kids.iter().copied());
+        }
+        false
+    }
     pub fn any_adjacent_text(&self) -> bool {
         self.nodes.values().any(|n| n.kids.windows(2).any(|w| self.is_text(w[0]) && self.is_text(w[1])))
     }
